@@ -325,10 +325,9 @@ func sensRegress() []sensCase {
 	date := block
 	date.DatePM = 1000
 	flow := doctree.Style{Class: "yaml-flow", PlainPM: 1000, KeyPlainPM: 1000, SinglePM: 1000}
-	aliasRaw := doctree.Style{Class: "yaml-block", Indent: 2, AliasPM: 1000, ScalarAliasPM: 1000, Seed: 3}
+	aliasRaw := doctree.Style{Class: "yaml-block", Indent: 2, AliasPM: 1000, ScalarAliasPM: 1000, Seed: 3, ProtectRefPaths: true}
 	aliasMain := aliasRaw
 	aliasMain.NoAliasUnder = rawValueKeys
-	aliasMain.ProtectRefPaths = true
 	aliasRef := aliasMain
 	aliasRef.ProtectRefPaths = false
 	merge := doctree.Style{Class: "yaml-block", Indent: 2, MergePM: 1000, Seed: 1, ProtectRefPaths: true, NoAliasUnder: rawValueKeys}
@@ -352,6 +351,7 @@ func sensRegress() []sensCase {
 		{Strs: []string{".inf", ".nan", "1_000", "007", "123456789012345678901234567890"}, Nums: []string{"12345678901234567890", "0.5"}, Layout: all, SC: styleCase{famMain, block}},
 		{Strs: []string{"", "a: b", "a #b", "- a", "*a"}, Nums: []string{"1"}, Layout: all | 1<<1, SC: styleCase{famMain, block}},
 		{Strs: []string{"&a", "!t", "%d", "@x", "`b`"}, Nums: []string{"1"}, Layout: all | 1<<1, SC: styleCase{famMain, flow}},
+		{Strs: []string{"line1\nline2\n", "x\ny", "multi\n\nline\n"}, Nums: []string{"1"}, Layout: all, SC: styleCase{famMain, doctree.Style{Class: "yaml-block", Indent: 2, LiteralPM: 1000}}},
 		{Strs: []string{"line1\nline2", "tab\there", "üñí", "trail ", "a\u0085b"}, Nums: []string{"1"}, Layout: all, SC: styleCase{famMain, doctree.Style{Class: "yaml-block", Indent: 3, LiteralPM: 1000, PlainPM: 1000, SinglePM: 500}}},
 	}
 }
